@@ -3,6 +3,7 @@ package main
 import (
 	"go/token"
 	"go/types"
+	"sort"
 
 	"golang.org/x/tools/go/ssa"
 )
@@ -73,8 +74,6 @@ func init() {
 					continue
 				}
 				recv := fn.Params[0]
-				// edges that the zero object cannot take: a test that some receiver field is non-zero
-				var excluded []*ssa.BasicBlock
 				recvField := func(v ssa.Value) bool {
 					ld, ok := stripConv(v).(*ssa.UnOp)
 					if !ok || ld.Op != token.MUL {
@@ -83,38 +82,139 @@ func init() {
 					fa, ok := ld.X.(*ssa.FieldAddr)
 					return ok && fa.X == ssa.Value(recv)
 				}
-				edgeFacts(fn, func(edge *ssa.BasicBlock, cf condFact) {
-					switch x := cf.cond.(type) {
+				// The zero object has every field zero.  Boolean execution over the atoms
+				// "receiver field f is non-zero" (tests written inline, in the cases of a switch,
+				// or inside small predicate methods called on the same receiver, which are
+				// evaluated under the same assignment): a dereference is safe when its block is
+				// unreachable under the assignment in which every atom is false.
+				sameRecvCallee := map[*ssa.Function]bool{}
+				otherRecvCallee := map[*ssa.Function]bool{}
+				var scan func(f *ssa.Function, r ssa.Value, depth int)
+				scan = func(f *ssa.Function, r ssa.Value, depth int) {
+					for _, b := range f.Blocks {
+						for _, ins := range b.Instrs {
+							call, ok := ins.(*ssa.Call)
+							if !ok {
+								continue
+							}
+							sc := call.Call.StaticCallee()
+							if sc == nil || sc.Pkg != fn.Pkg || sc.Blocks == nil || sc.Signature.Recv() == nil || len(call.Call.Args) == 0 {
+								continue
+							}
+							if namedOf(sc.Signature.Recv().Type()) != rn {
+								continue
+							}
+							if call.Call.Args[0] == r {
+								if !sameRecvCallee[sc] && depth < 2 {
+									sameRecvCallee[sc] = true
+									scan(sc, sc.Params[0], depth+1)
+								}
+							} else {
+								otherRecvCallee[sc] = true
+							}
+						}
+					}
+				}
+				scan(fn, recv, 0)
+				atomIdx := map[string]int{}
+				recvOf := func(f *ssa.Function) ssa.Value {
+					if f == fn {
+						return recv
+					}
+					if sameRecvCallee[f] && !otherRecvCallee[f] {
+						return f.Params[0]
+					}
+					return nil
+				}
+				fieldOfLoad := func(v ssa.Value) (string, bool) {
+					ld, ok := stripConv(v).(*ssa.UnOp)
+					if !ok || ld.Op != token.MUL {
+						return "", false
+					}
+					fa, ok := ld.X.(*ssa.FieldAddr)
+					if !ok {
+						return "", false
+					}
+					r := recvOf(ld.Parent())
+					if r == nil || fa.X != r {
+						return "", false
+					}
+					_, fv := fieldAddrInfo(fa)
+					if fv == nil {
+						return "", false
+					}
+					return fv.Name(), true
+				}
+				atomOf := func(v ssa.Value, define bool) (int, bool, bool) {
+					name, neg, ok := "", false, false
+					switch x := v.(type) {
 					case *ssa.BinOp:
 						f, o := x.X, x.Y
 						if isNilConst(f) || isZeroConst(f) {
 							f, o = o, f
 						}
-						if recvField(f) && (isNilConst(o) || isZeroConst(o)) {
+						if !(isNilConst(o) || isZeroConst(o)) {
+							break
+						}
+						if n, isF := fieldOfLoad(f); isF {
 							switch x.Op {
-							case token.NEQ, token.GTR:
-								if cf.truth {
-									excluded = append(excluded, edge)
-								}
+							case token.NEQ:
+								name, ok = n, true
 							case token.EQL:
-								if !cf.truth {
-									excluded = append(excluded, edge)
+								name, neg, ok = n, true, true
+							case token.GTR:
+								if bt, isB := f.Type().Underlying().(*types.Basic); isB && bt.Info()&types.IsUnsigned != 0 {
+									name, ok = n, true
 								}
 							}
 						}
 					case *ssa.UnOp:
-						if x.Op == token.MUL && recvField(x) && cf.truth { // a bool flag of the receiver
-							excluded = append(excluded, edge)
+						if x.Op == token.MUL {
+							if bt, isB := x.Type().Underlying().(*types.Basic); isB && bt.Kind() == types.Bool {
+								if n, isF := fieldOfLoad(x); isF {
+									name, ok = n, true
+								}
+							}
 						}
 					}
-				})
+					if !ok {
+						return 0, false, false
+					}
+					idx, have := atomIdx[name]
+					if !have {
+						if !define || len(atomIdx) >= 10 {
+							return 0, false, false
+						}
+						idx = len(atomIdx)
+						atomIdx[name] = idx
+					}
+					return idx, neg, true
+				}
+				fnsToScan := []*ssa.Function{fn}
+				for f := range sameRecvCallee {
+					if !otherRecvCallee[f] {
+						fnsToScan = append(fnsToScan, f)
+					}
+				}
+				sort.Slice(fnsToScan, func(a, b int) bool { return fnName(fnsToScan[a]) < fnName(fnsToScan[b]) })
+				for _, f := range fnsToScan {
+					for _, b := range f.Blocks {
+						for _, ins := range b.Instrs {
+							if v, ok := ins.(ssa.Value); ok {
+								atomOf(v, true)
+							}
+						}
+					}
+				}
+				be := &boolExec{fn: fn, n: len(atomIdx), inline: true, atoms: func(v ssa.Value) (int, bool, bool) { return atomOf(v, false) }}
+				reachZero := map[*ssa.BasicBlock]bool{}
 				safeAt := func(b *ssa.BasicBlock) bool {
-					for _, e := range excluded {
-						if e == b || e.Dominates(b) {
-							return true
-						}
+					z, ok := reachZero[b]
+					if !ok {
+						z = be.reachableUnder(b)[0]
+						reachZero[b] = z
 					}
-					return false
+					return !z
 				}
 				key := fnName(fn) + "/zero-value"
 				bad := ""
@@ -160,13 +260,327 @@ func init() {
 	})
 }
 
+// ---- RANGE-EMPTY-GUARD -----------------------------------------------------
+
+// boundRoles: which SSA values are the lower (1) / upper (2) bound of the range
+// under consideration, and which struct-typed values / cells carry them in
+// which field.
+type boundRoles struct {
+	val    map[ssa.Value]int
+	fields map[ssa.Value]map[int]int
+}
+
+func newBoundRoles() *boundRoles {
+	return &boundRoles{val: map[ssa.Value]int{}, fields: map[ssa.Value]map[int]int{}}
+}
+
+func (r *boundRoles) setField(v ssa.Value, idx, role int) {
+	if r.fields[v] == nil {
+		r.fields[v] = map[int]int{}
+	}
+	r.fields[v][idx] = role
+}
+
+// structRoles: the field roles of a struct value, a pointer to one, or a cell holding one.
+func (r *boundRoles) structRoles(v ssa.Value) map[int]int {
+	v = stripConv(v)
+	if m, ok := r.fields[v]; ok {
+		return m
+	}
+	switch x := v.(type) {
+	case *ssa.UnOp:
+		if x.Op == token.MUL {
+			return r.structRoles(x.X)
+		}
+	case *ssa.Alloc:
+		// a local struct filled field by field from values that have a role
+		m := map[int]int{}
+		if refs := x.Referrers(); refs != nil {
+			for _, ref := range *refs {
+				fa, ok := ref.(*ssa.FieldAddr)
+				if !ok || fa.Referrers() == nil {
+					continue
+				}
+				for _, fr := range *fa.Referrers() {
+					if st, ok := fr.(*ssa.Store); ok && st.Addr == ssa.Value(fa) {
+						if role := r.role(st.Val); role != 0 {
+							m[fa.Field] = role
+						}
+					}
+				}
+			}
+		}
+		if len(m) > 0 {
+			return m
+		}
+		// a parameter spilled into a cell
+		if refs := x.Referrers(); refs != nil {
+			for _, ref := range *refs {
+				if st, ok := ref.(*ssa.Store); ok && st.Addr == ssa.Value(x) {
+					if _, isAlloc := stripConv(st.Val).(*ssa.Alloc); !isAlloc {
+						if sm := r.structRoles(st.Val); sm != nil {
+							return sm
+						}
+					}
+				}
+			}
+		}
+	}
+	return nil
+}
+
+func (r *boundRoles) role(v ssa.Value) int {
+	v = stripConv(v)
+	if k, ok := r.val[v]; ok {
+		return k
+	}
+	switch x := v.(type) {
+	case *ssa.Field:
+		if m := r.structRoles(x.X); m != nil {
+			return m[x.Field]
+		}
+	case *ssa.UnOp:
+		if x.Op == token.MUL {
+			if fa, ok := x.X.(*ssa.FieldAddr); ok {
+				if m := r.structRoles(fa.X); m != nil {
+					return m[fa.Field]
+				}
+			}
+		}
+	}
+	return 0
+}
+
+// mark: v is bound `role`; carry the role back to where v comes from inside its
+// function (a field of a struct parameter / local struct).
+func (r *boundRoles) mark(v ssa.Value, role int) {
+	v = stripConv(v)
+	r.val[v] = role
+	switch x := v.(type) {
+	case *ssa.Field:
+		r.setField(stripConv(x.X), x.Field, role)
+		if ld, ok := stripConv(x.X).(*ssa.UnOp); ok && ld.Op == token.MUL {
+			r.setField(ld.X, x.Field, role)
+		}
+	case *ssa.UnOp:
+		if x.Op == token.MUL {
+			if fa, ok := x.X.(*ssa.FieldAddr); ok {
+				r.setField(stripConv(fa.X), fa.Field, role)
+				if ld, ok := stripConv(fa.X).(*ssa.UnOp); ok && ld.Op == token.MUL {
+					r.setField(ld.X, fa.Field, role)
+				}
+			}
+		}
+	}
+}
+
+// truthIfEqual: the value of a condition under the hypothesis "both bounds are
+// given (non-nil) and equal".
+func (r *boundRoles) truthIfEqual(v ssa.Value, depth int) tri {
+	both := func(a, b ssa.Value) bool {
+		x, y := r.role(a), r.role(b)
+		return x != 0 && y != 0 && x != y
+	}
+	fromBool := func(b bool) tri {
+		if b {
+			return triTrue
+		}
+		return triFalse
+	}
+	switch x := v.(type) {
+	case *ssa.Call:
+		sc := x.Call.StaticCallee()
+		if sc == nil {
+			return triUnknown
+		}
+		switch funcFullName(sc) {
+		case "bytes.Equal":
+			if both(x.Call.Args[0], x.Call.Args[1]) {
+				return triTrue
+			}
+			return triUnknown
+		}
+		// an in-package predicate over the bounds
+		if sc.Blocks == nil || depth > 2 || sc.Signature.Results().Len() != 1 || !isBoolType(sc.Signature.Results().At(0).Type()) {
+			return triUnknown
+		}
+		carries := false
+		for i, a := range x.Call.Args {
+			if i >= len(sc.Params) {
+				break
+			}
+			if role := r.role(a); role != 0 {
+				r.val[sc.Params[i]] = role
+				carries = true
+			}
+			if m := r.structRoles(a); m != nil {
+				r.fields[sc.Params[i]] = m
+				carries = true
+			}
+		}
+		if !carries {
+			return triUnknown
+		}
+		return predicateUnder(sc, func(w ssa.Value) (int, bool, bool) {
+			switch r.truthIfEqual(w, depth+1) {
+			case triTrue:
+				return 0, false, true
+			case triFalse:
+				return 0, true, true
+			}
+			return 0, false, false
+		}, 1, nil, 0)
+	case *ssa.BinOp:
+		if cmp, ok := x.X.(*ssa.Call); ok {
+			if sc := cmp.Call.StaticCallee(); sc != nil && funcFullName(sc) == "bytes.Compare" && both(cmp.Call.Args[0], cmp.Call.Args[1]) {
+				if k, isK := constInt(x.Y); isK {
+					switch x.Op {
+					case token.EQL:
+						return fromBool(0 == k)
+					case token.NEQ:
+						return fromBool(0 != k)
+					case token.LSS:
+						return fromBool(0 < k)
+					case token.LEQ:
+						return fromBool(0 <= k)
+					case token.GTR:
+						return fromBool(0 > k)
+					case token.GEQ:
+						return fromBool(0 >= k)
+					}
+				}
+			}
+		}
+		// a given bound is not nil
+		a, b := x.X, x.Y
+		if isNilConst(a) {
+			a, b = b, a
+		}
+		if isNilConst(b) && r.role(a) != 0 {
+			switch x.Op {
+			case token.EQL:
+				return triFalse
+			case token.NEQ:
+				return triTrue
+			}
+		}
+	}
+	return triUnknown
+}
+
+// searchReachableIfEqual: can `at` be reached in fn when the bounds are equal?
+func (r *boundRoles) searchReachableIfEqual(fn *ssa.Function, at *ssa.BasicBlock) bool {
+	be := &boolExec{fn: fn, n: 1, atoms: func(w ssa.Value) (int, bool, bool) {
+		switch r.truthIfEqual(w, 0) {
+		case triTrue:
+			return 0, false, true
+		case triFalse:
+			return 0, true, true
+		}
+		return 0, false, false
+	}}
+	return be.reachableUnder(at)[1]
+}
+
 func init() {
 	register(&Rule{
 		Name:  "RANGE-EMPTY-GUARD",
 		Floor: 1,
-		Doc:   "a dictionary range is [start, end): vellum's range search positions its iterator on the first key >= start and hands that key out without comparing it with the exclusive end (dependency behaviour, summarised here: FST.Search(a, k, k) yields k when k is a key). A function that passes caller-supplied bounds to FST.Search/Iterator therefore compares the two bounds itself, and the branch taken when they are equal does not reach the search: an empty range enumerates nothing",
+		Doc:   "a dictionary range is [start, end): vellum's range search positions its iterator on the first key >= start and hands that key out without comparing it with the exclusive end (dependency behaviour, summarised here: FST.Search(a, k, k) yields k when k is a key). Wherever caller-supplied bounds reach FST.Search/Iterator, the search is unreachable when both bounds are given and equal: boolean execution of the function under that hypothesis (bytes.Equal of the bounds true, bytes.Compare of them 0, neither nil; predicates over the bounds - also over a struct that carries them - evaluated under the same hypothesis) does not reach the call; when the bounds are parameters of an unexported helper the same is asked of every call of the helper instead. An empty range enumerates nothing",
 		Run: func(c *Ctx, scope string, r *Report) {
 			n := 0
+			var decide func(fn *ssa.Function, at ssa.Instruction, start, end ssa.Value, depth int) (bool, string)
+			decide = func(fn *ssa.Function, at ssa.Instruction, start, end ssa.Value, depth int) (bool, string) {
+				roles := newBoundRoles()
+				roles.mark(start, 1)
+				roles.mark(end, 2)
+				if !roles.searchReachableIfEqual(fn, at.Block()) {
+					return true, "equal bounds do not reach the search in " + fnName(fn)
+				}
+				// the bounds come in through parameters of a helper: ask its callers
+				if depth >= 3 || token.IsExported(fn.Name()) || fn.Parent() != nil {
+					return false, fnName(fn)
+				}
+				origin := func(v ssa.Value) (int, int, bool) { // parameter index, field (-1: the parameter itself)
+					v = stripConv(v)
+					for i, p := range fn.Params {
+						if v == ssa.Value(p) {
+							return i, -1, true
+						}
+					}
+					switch x := v.(type) {
+					case *ssa.Field:
+						for i, p := range fn.Params {
+							if stripConv(x.X) == ssa.Value(p) {
+								return i, x.Field, true
+							}
+						}
+					case *ssa.UnOp:
+						if fa, ok := x.X.(*ssa.FieldAddr); ok && x.Op == token.MUL {
+							base := stripConv(fa.X)
+							if ld, ok := base.(*ssa.UnOp); ok && ld.Op == token.MUL {
+								// a spilled parameter
+								if al, ok := ld.X.(*ssa.Alloc); ok && al.Referrers() != nil {
+									for _, ref := range *al.Referrers() {
+										if st, ok := ref.(*ssa.Store); ok {
+											base = stripConv(st.Val)
+										}
+									}
+								}
+							}
+							if al, ok := base.(*ssa.Alloc); ok && al.Referrers() != nil {
+								for _, ref := range *al.Referrers() {
+									if st, ok := ref.(*ssa.Store); ok && st.Addr == ssa.Value(al) {
+										base = stripConv(st.Val)
+									}
+								}
+							}
+							for i, p := range fn.Params {
+								if base == ssa.Value(p) {
+									return i, fa.Field, true
+								}
+							}
+						}
+					}
+					return 0, 0, false
+				}
+				si, sf, ok1 := origin(start)
+				ei, ef, ok2 := origin(end)
+				if !ok1 || !ok2 {
+					return false, fnName(fn)
+				}
+				sites := 0
+				for _, caller := range c.srcFns {
+					for _, b := range caller.Blocks {
+						for _, ins := range b.Instrs {
+							call, ok := ins.(*ssa.Call)
+							if !ok || call.Call.StaticCallee() != fn {
+								continue
+							}
+							sites++
+							argOf := func(pi, field int) ssa.Value {
+								a := call.Call.Args[pi]
+								if field < 0 {
+									return a
+								}
+								// the field of the struct argument as a value of the caller
+								roles := newBoundRoles()
+								_ = roles
+								return &boundFieldRef{base: a, field: field}
+							}
+							sa, ea := argOf(si, sf), argOf(ei, ef)
+							ok, why := decideRef(c, decide, caller, call, sa, ea, depth+1)
+							if !ok {
+								return false, why
+							}
+						}
+					}
+				}
+				if sites == 0 {
+					return false, fnName(fn)
+				}
+				return true, "every call of " + fnName(fn) + " is unreachable for equal bounds"
+			}
 			for _, fn := range c.srcFns {
 				for _, b := range fn.Blocks {
 					for _, ins := range b.Instrs {
@@ -185,58 +599,10 @@ func init() {
 						}
 						n++
 						key := fnName(fn) + "/range-search"
-						guarded := false
-						for _, gb := range fn.Blocks {
-							ifi, ok := gb.Instrs[len(gb.Instrs)-1].(*ssa.If)
-							if !ok {
-								continue
-							}
-							var equalEdge *ssa.BasicBlock
-							isBounds := func(cc *ssa.CallCommon) bool {
-								return len(cc.Args) == 2 && (cc.Args[0] == start && cc.Args[1] == end || cc.Args[0] == end && cc.Args[1] == start)
-							}
-							switch x := ifi.Cond.(type) {
-							case *ssa.Call:
-								if sc := x.Call.StaticCallee(); sc != nil && funcFullName(sc) == "bytes.Equal" && isBounds(&x.Call) {
-									equalEdge = gb.Succs[0]
-								}
-							case *ssa.BinOp:
-								cmp, ok := x.X.(*ssa.Call)
-								k, isK := constInt(x.Y)
-								if ok && isK && cmp.Call.StaticCallee() != nil && funcFullName(cmp.Call.StaticCallee()) == "bytes.Compare" && isBounds(&cmp.Call) {
-									// the truth of `0 <op> k`
-									var at0 bool
-									switch x.Op {
-									case token.EQL:
-										at0 = 0 == k
-									case token.NEQ:
-										at0 = 0 != k
-									case token.LSS:
-										at0 = 0 < k
-									case token.LEQ:
-										at0 = 0 <= k
-									case token.GTR:
-										at0 = 0 > k
-									case token.GEQ:
-										at0 = 0 >= k
-									default:
-										continue
-									}
-									if at0 {
-										equalEdge = gb.Succs[0]
-									} else {
-										equalEdge = gb.Succs[1]
-									}
-								}
-							}
-							if equalEdge != nil && equalEdge != b && !reachableWithout(equalEdge, b, nil) {
-								guarded = true
-							}
-						}
-						if guarded {
-							r.ok(key, fnName(fn), c.pos(call.Pos()), "the bounds are compared first; equal bounds do not reach the search")
+						if ok, why := decide(fn, call, start, end, 0); ok {
+							r.ok(key, fnName(fn), c.pos(call.Pos()), why)
 						} else {
-							r.bad(key, fnName(fn), c.pos(call.Pos()), "caller-supplied range bounds are handed to the FST search without being compared: for an empty range [k,k) with k a live term the iterator enumerates k")
+							r.bad(key, fnName(fn), c.pos(call.Pos()), "caller-supplied range bounds reach the FST search without the empty range having been diverted (followed up to "+why+"): for an empty range [k,k) with k a live term the iterator enumerates k")
 						}
 					}
 				}
@@ -246,4 +612,56 @@ func init() {
 			}
 		},
 	})
+}
+
+// boundFieldRef stands for "field #field of the struct value base" at a call site.
+type boundFieldRef struct {
+	ssa.Value
+	base  ssa.Value
+	field int
+}
+
+func decideRef(c *Ctx, decide func(fn *ssa.Function, at ssa.Instruction, start, end ssa.Value, depth int) (bool, string), caller *ssa.Function, call *ssa.Call, sa, ea ssa.Value, depth int) (bool, string) {
+	// resolve field references to values of the caller where possible
+	resolve := func(v ssa.Value) ssa.Value {
+		ref, ok := v.(*boundFieldRef)
+		if !ok {
+			return v
+		}
+		base := stripConv(ref.base)
+		if ld, ok := base.(*ssa.UnOp); ok && ld.Op == token.MUL {
+			base = ld.X
+		}
+		if al, ok := base.(*ssa.Alloc); ok && al.Referrers() != nil {
+			for _, r := range *al.Referrers() {
+				fa, ok := r.(*ssa.FieldAddr)
+				if !ok || fa.Field != ref.field || fa.Referrers() == nil {
+					continue
+				}
+				for _, fr := range *fa.Referrers() {
+					if st, ok := fr.(*ssa.Store); ok && st.Addr == ssa.Value(fa) {
+						return st.Val
+					}
+				}
+			}
+		}
+		// a struct parameter of the caller handed on
+		for _, p := range caller.Params {
+			if base == ssa.Value(p) {
+				for _, b := range caller.Blocks {
+					for _, ins := range b.Instrs {
+						if f, ok := ins.(*ssa.Field); ok && stripConv(f.X) == ssa.Value(p) && f.Field == ref.field {
+							return f
+						}
+					}
+				}
+			}
+		}
+		return nil
+	}
+	s, e := resolve(sa), resolve(ea)
+	if s == nil || e == nil {
+		return false, fnName(caller)
+	}
+	return decide(caller, call, s, e, depth)
 }
